@@ -31,7 +31,7 @@ class VmDiscover:
         name_list = self._set_by_oper(self._param_to_value(name))
         if name_list and len(name_list) > 0:
             index = 0 if self._reg.disc_forward else -1
-            self._reg.result = name_list[index] or Operand.NULL
+            self._reg.result = name_list[index]
         else:
             self._reg.result = Operand.NULL
 
@@ -40,18 +40,23 @@ class VmDiscover:
         name_list = self._names_by_oper()
         current = self._param_to_value(current)
         if not self._reg.disc_forward:
-            self._reg.result = name_list.prev(current) or Operand.NULL
+            self._reg.result = self._or_null(name_list.prev(current))
         else:
-            self._reg.result = name_list.next(current) or Operand.NULL
+            self._reg.result = self._or_null(name_list.next(current))
 
     def dnextm(self, name, current) -> None:
         # Go to the next object in the member iteration.
         name_list = self._set_by_oper(self._param_to_value(name))
         current = self._param_to_value(current)
         if not self._reg.disc_forward:
-            self._reg.result = name_list.prev(current) or Operand.NULL
+            self._reg.result = self._or_null(name_list.prev(current))
         else:
-            self._reg.result = name_list.next(current) or Operand.NULL
+            self._reg.result = self._or_null(name_list.next(current))
+
+    @staticmethod
+    def _or_null(name):
+        # An empty string is a legitimate name; only None ends an iteration.
+        return Operand.NULL if name is None else name
 
     def _param_to_value(self, param):
         if isinstance(param, (str, Operand)):
